@@ -135,6 +135,7 @@ def run(ctx):
     extern_rules(ctx, ev)
     type_printer(ctx)
     helpers(ctx)
+    hole_kinds(ctx, item, fn, ev)
     syntax(ctx, item, fn, ev)
 
 
@@ -1298,11 +1299,38 @@ def placeholder(ty, expr):
         return '16usize'
     if t in ('isize',):
         return '-3isize'
-    if t == 'str':
-        return '"text"'
+    if t == 'str' or t == 'std::string::String' or t.endswith('::String') or t == 'String':
+        return '"text"'          # quote! prints a str / String as a string literal (an identifier needs str_to_ident / format_ident!)
+    if t == 'bool':
+        return 'true'
+    if t == 'char':
+        return "'c'"
+    if re.match(r'^(u|i)(8|16|32|64|128)$', t):
+        return '7' + t
     if 'RepInterp' in t and 'Ident' in t:
         return 'ident_y'
     return 'ident_z'
+
+
+def hole_kinds(ctx, item, fn, ev):
+    """quote! prints a `String` / `&str` as a string LITERAL.  That is what a doc attribute and an `extern "<abi>"` need, and
+    nothing else in the templates: a name interpolated as a string (`fn "resize"(..)`, `"width": u32` — both accepted by the
+    parser as patterns and rejected by the type checker) is a String where an identifier belongs"""
+    bad = []
+    n = 0
+    for name, T_ in (('item', item), ('fn', fn), ('extern', ev)):
+        for h in T_.fl.holes:
+            ty = str(h[2] or '').replace('&', '').strip()
+            if not (ty in ('str', 'String') or ty.endswith('::String')):
+                continue
+            n += 1
+            i = h[0]
+            ok = re.search(r'doc = ⟨H%d⟩' % i, T_.s) is not None or re.search(r'extern ⟨H%d⟩' % i, T_.s) is not None
+            if not ok:
+                m = re.search(r'.{0,40}⟨H%d⟩.{0,20}' % i, T_.s)
+                bad.append('%s: %s' % (name, m.group(0) if m else 'H%d' % i))
+    ctx.ob(['C13'], 'R-TMPL', 'hole-kinds|strings-only-as-literals', not bad and n >= 3,
+           'string-typed interpolations (%d) occur only where a string literal belongs (doc attributes, the ABI of `extern`): %s' % (n, bad[:3]), loc(item.f.span))
 
 
 def syntax(ctx, item, fn, ev):
